@@ -137,6 +137,8 @@ class DrainAnalysis:
                 p.ops.append(("del", self.subst(t, p), s))
             return [p]
         if isinstance(s, ast.Expr):
+            if not any(isinstance(x, (ast.Call, ast.Await, ast.Yield, ast.YieldFrom, ast.NamedExpr)) for x in ast.walk(s.value)):
+                return [p]      # a value looked at and dropped (a docstring, what is left of a logging call) changes nothing
             p.ops.append(("call", self.subst(s.value, p), s))
             return [p]
         if isinstance(s, ast.Pass):
